@@ -124,6 +124,37 @@ def near_limit_cases(ctx, vc, cfgs):
     return out
 
 
+def alpha_type_cases(classes):
+    """The type of alpha x limits given / default (spec/HDCGen.tla AlphaTypeCases).  Independent marginals: the
+    default upper limit marginal_icdf(1 - 0.2^n alpha) is a closed-form quantile, no Monte-Carlo sample.
+    2-D: alpha = 2^-10 (exact as float16 / float32 / float64); 3-D: alpha = float32(2e-6), whose exact decimal
+    expansion has more than 18 decimals - `alpha` carries it exactly (the number that is passed, in every type),
+    `alpha18` the same rounded to 18 decimals for the fixed-point clauses (1/2 unit of 1e-18 against a slack of
+    200 N units and a tolerance of 250 units for the limit)."""
+    from decimal import Decimal
+    wb = dict(family="Weibull", cond=None, params=dict(alpha=2.0, beta=1.5, gamma=0.0))
+    ew = dict(family="ExponentiatedWeibull", cond=None, params=dict(alpha=1.0, beta=1.2, delta=2.0))
+    ln = dict(family="LogNormal", cond=None, params=dict(mu=1.0, sigma=0.3))
+    out = []
+    for c in sorted(classes, key=lambda c: (c["dim"], c["limits"], c["atype"])):
+        if c["dim"] == 2:
+            model, alpha, limits, deltas = [wb, ln], "0.0009765625", [[0.0, 9.5], [0.0, 9.0]], [0.4, 0.35]
+        else:
+            a32 = Decimal(float(np.float32(2e-6)))
+            model, alpha, deltas = [wb, ew, ln], format(a32, "f"), [1.0, 0.8, 1.0]
+            limits = [[0.0, 14.0], [0.0, 11.4], [0.0, 14.7]]
+        case = dict(kind="hdc", model=model, alpha=alpha, limits=limits if c["limits"] == "explicit" else None,
+                    deltas=deltas, np_seed=None,
+                    cfg=dict(dim=c["dim"], cond1="none", cond2="none", deltas="list", limits=c["limits"], aniso="1",
+                             grid="alphatype", alpha="small" if c["dim"] == 2 else "tiny", atype=c["atype"]))
+        if c["dim"] == 3:
+            case["alpha18"] = format(a32.quantize(Decimal("1e-18")), "f")
+        if c["atype"] != "float":
+            case["typed"] = dict(dtype=c["atype"], alpha=True)
+        out.append(case)
+    return out
+
+
 def is_empty_selection(obs):
     """densest cell alone exceeds 1 - alpha: the code raises IndexError (recorded behaviour of
     the 'Empty' outcome in HDC.tla, nothing is claimed about it)"""
@@ -140,7 +171,7 @@ def judge(ctx, vc, cases, label, base_id=0, key_suffix=""):
             empty += 1
             ctx.case(H.case_key(case), nontrivial=False)
             continue
-        rec = H.record_c02(base_id + i + 1, case, obs)
+        rec = H.record_c02(base_id + i + 1, dict(case, alpha=case["alpha18"]) if "alpha18" in case else case, obs)
         recs.append(rec)
         n_in = sum(rec.get("R", []))
         n = len(rec.get("Ph", []))
@@ -351,7 +382,8 @@ def run(ctx):
         "cut falls inside a pair of cells whose probabilities coincide while their densities differ (6 / 30 base "
         "grids x up to 6 alphas, incl. the two grids of the bug report), all-default contours whose default upper limit is negative (RuntimeWarning expected), limits / cell sizes / alpha as np.float32 / np.float16 scalars (the DNVGL sea state on 350-390 cells per axis at "
         "alpha 1e-6 .. 1e-5 as in the bug report - one of the three big grids per seed in quick, all in thorough - plus "
-        "5 / 40 random classes), 14 / ~40 integer-typed "
+        "5 / 40 random classes), the type of alpha (Python float, np.float64, np.float32, np.float16 where it represents the value) x limits given / default on "
+        "independent marginals (14 classes enumerated by TLC: 2-D alpha = 2^-10, 3-D alpha = float32(2e-6); an exception is a verdict), 14 / ~40 integer-typed "
         "grids (limits as python int / np.int64, cell sizes as int, list of ints, int on some axes and float on "
         "others, 2-D and 3-D) judged against the harness's float reference.  Hidden state: 8 (quick) / 40 (thorough) pairs of look-alike models - same structure, "
         "families, fixed parameters, dependence functions as parameter-less closures with different constants - run "
@@ -428,11 +460,14 @@ def run(ctx):
     # distribution.fit, dependence re-fit, replaced distribution), contour on the same grid
     hist = H.history_cases(vc, np.random.default_rng(ctx.seed * 67 + 14), cfgs, ctx.pick(10, 60))
     near = near_limit_cases(ctx, vc, cfgs)
+    # the type of alpha (Python float, np.float64, np.float32, np.float16) x limits given / default
+    atype = alpha_type_cases(ctx.generate("HDCGen", "Gen_HDC_alphatype.cfg"))
     again = [c for c, r, i in reversed(kept) if not r["exc"] and i["n"] <= 6000][: ctx.pick(24, 300)]
     groups = [("decimal cell sizes / ties / negative default limits / narrow floats / integer grids", extra, 150000),
               ("look-alike model pairs (A, B, A) on one grid", twins, 200000),
               ("contours of a model object changed in place after an earlier contour", hist, 270000),
-              ("grids with total just below / above 1 - alpha", near, 100000)]
+              ("grids with total just below / above 1 - alpha", near, 100000),
+              ("type of alpha x limits given / default", atype, 500000)]
     if ctx.quick:   # one TLC run for all of them
         groups = [("special classes: " + "; ".join(g[0] for g in groups), [c for g in groups for c in g[1]], 100000)]
     kept_s = []
@@ -446,6 +481,7 @@ def run(ctx):
     ctx.notes["model_history_contours"] = count(lambda c, r: "history" in c)
     ctx.notes["near_limit_contours"] = count(lambda c, r: c["cfg"].get("grid") == "near")
     ctx.notes["near_limit_warned"] = count(lambda c, r: c["cfg"].get("grid") == "near" and r["warned"])
+    ctx.notes["alpha_type_contours"] = count(lambda c, r: c["cfg"].get("grid") == "alphatype")
     ctx.notes["narrow_float_contours"] = count(lambda c, r: "typed" in c)
     ctx.notes["integer_grid_contours"] = count(lambda c, r: c["cfg"].get("grid") == "integer")
     ctx.notes["other_special_contours"] = count(lambda c, r: c["cfg"].get("grid") in ("decimal", "ties", "tiecut",
